@@ -513,9 +513,14 @@ class UpdateCollection(Message):
                         withdraws = b''
                     mp_unreach = mpurnlri
 
-            yield self._message(
-                UpdateCollection.prefix(withdraws) + UpdateCollection.prefix(mp_unreach + attr + mp_reach) + announced,
-            )  # yield mpr/mpur per family
+            if mp_reach or mp_unreach or announced or withdraws:
+                # nothing left for this family (withdraws held back, or routes that do not fit): sending the
+                # empty message would be read as an IPv4 unicast End-of-RIB
+                yield self._message(
+                    UpdateCollection.prefix(withdraws)
+                    + UpdateCollection.prefix(mp_unreach + attr + mp_reach)
+                    + announced,
+                )  # yield mpr/mpur per family
             withdraws = b''
             announced = b''
 
